@@ -45,6 +45,8 @@ FINDING_SITES = {
                     "`use entity lib.ent(arch)`): names are not resolved",
     "block_map_formal": "formal part of a block header generic map / port map (`generic map (bg => ..)`) is not resolved",
     "resolution_function": "resolution function name in a subtype indication (`subtype r is resolve bit`) is not resolved",
+    "config_inst_formal": "formal part of the port/generic map of a configuration instantiation "
+                          "(`u : configuration work.cfg port map (clk => c);`) is not resolved",
     "two_libraries": "file mapped to two libraries: only the entity of one library is renamed, references through the "
                      "other library keep the old name although the shared file is edited",
 }
@@ -362,8 +364,7 @@ def main(tier, replay=None):
     import random
     res = Result(PROP, tier, level="other")
     d = rundir(PROP)
-    if not os.environ.get("C09_DEBUG_SKIP_PROOF"):
-        proof_stage(res, PROP, thorough=(tier == "thorough"))
+    proof_stage(res, PROP, thorough=(tier == "thorough"))
     ok, log, hbin = harness_build("c09")
     if not ok:
         res.violation("harness build failed against the current /repo tree", {"kind": "build", "log": log[-3000:]},
@@ -379,8 +380,6 @@ def main(tier, replay=None):
         return res.finish()
     libsdir = std_libs_dir(d)
     known = known_site_entries()
-    if os.environ.get("C09_DEBUG_KNOWN_ALL"):
-        known = {k: {"id": "F?"} for k in FINDING_SITES}
 
     # ---- which projects / entities
     if replay:
@@ -551,7 +550,8 @@ def main(tier, replay=None):
                 pr = rq["prepare"]
                 if pr is None:
                     stats["prepare_none_on_identifier"] += 1
-                    stats.setdefault("prepare_none_examples", []).append("%s/%s %s:%d:%d %s" % (g.get("seed"), g.get("idx"), rq["file"], rq["line"], rq["char"], x.name))
+                    if len(stats.setdefault("prepare_none_examples", [])) < 10:
+                        stats["prepare_none_examples"].append("%s/%s %s:%d:%d %s" % (g.get("seed"), g.get("idx"), rq["file"], rq["line"], rq["char"], x.name))
                     if iac is None:
                         # the search does not find the identifier at all (C08's subject); rename is then impossible, not wrong
                         continue
